@@ -67,6 +67,7 @@ var keyOwners = map[string][]string{
 	"C17.roman.valid.types": {"C17", "C10", "C02"},
 	"C17.sem.types":         {"C17", "C03"},
 	"C17.sem.retain":        {"C17", "C03", "C14"},
+	"C03.overwrite":         {"C03", "C17"},
 	"C17.sem.cmppre.types":  {"C17", "C06", "C14"},
 	"C17.sem.cmpstr.types":  {"C17", "C06", "C14"},
 	"C17.sem.latest.types":  {"C17", "C06", "C14"},
